@@ -115,7 +115,27 @@ fn st_idx(s: &St) -> usize {
     match s { St::S0 => 0, St::S1 => 1, St::G(Sub::A) => 2, St::G(Sub::B) => 3, St::G(Sub::C) => 4 }
 }
 
+/// A hand-written `Timeline`: a derive-generated one whose *reported* total duration can be changed from outside after it
+/// has been put into a merge or an animator (think of a global animation-speed setting).  Used by the harness-only `x…` ops,
+/// which have no counterpart in the model: what they check is judged on the implementation alone.
+#[derive(Clone)]
+pub struct DynTl<T: Timeline + Clone> {
+    inner: T,
+    extra: std::sync::Arc<std::sync::atomic::AtomicU32>,     // f32 bits, seconds added to the reported duration and delay
+}
+impl<T: Timeline + Clone> Timeline for DynTl<T> {
+    type Target = T::Target;
+    fn cycle_duration(&self) -> Option<f32> { self.inner.cycle_duration() }
+    fn delay(&self) -> f32 { self.inner.delay() }
+    fn duration(&self) -> f32 { self.inner.duration() + f32::from_bits(self.extra.load(std::sync::atomic::Ordering::Relaxed)) }
+    fn repeat(&self) -> Repeat { self.inner.repeat() }
+    fn start_with(&mut self, values: &Self::Target) { self.inner.start_with(values) }
+    fn update(&self, values: &mut Self::Target, time: f32) { self.inner.update(values, time) }
+}
+
 enum Slot<S: ShapeOps> {
+    Dy(MergedTimeline<DynTl<S::Tl>>, Vec<DynTl<S::Tl>>),
+    AnD(EnumStateAnimator<St, DynTl<S::Tl>>),
     Tl(S::Tl),
     Mg(MergedTimeline<S::Tl>),
     Mg2(MergedTimeline<MergedTimeline<S::Tl>>),     // a merge whose components are themselves merges
@@ -180,6 +200,11 @@ fn show_anim<S: ShapeOps>(a: &EnumStateAnimator<St, S::Tl>) -> String {
         ns.as_nanos(),
         p
     )
+}
+
+fn show_anim_dyn<S: ShapeOps>(a: &EnumStateAnimator<St, DynTl<S::Tl>>) -> String {
+    let (ns, _) = a.verif_snapshot();
+    format!("{} | {} {} {}", show_vals(&S::to_vals(a.current_values())), st_idx(a.current_state()), a.is_ended() as u8, ns.as_nanos())
 }
 
 fn meta<T: Timeline>(t: &T) -> String {
@@ -265,6 +290,47 @@ impl<S: ShapeOps> AnySession for Sess<S> {
                 self.slots.insert(slot, Slot::Mg(merged));
                 "ok".into()
             }
+            "xdyn" => {
+                // `xdyn <slot> <n> <timeline slot>…`: a merge of hand-written timelines wrapping the given ones
+                let slot: usize = w[1].parse().unwrap();
+                let n: usize = w[2].parse().unwrap();
+                let mut comps = Vec::new();
+                for i in 0..n {
+                    if let Some(Slot::Tl(t)) = self.slots.get(&w[3 + i].parse().unwrap()) {
+                        comps.push(DynTl { inner: t.clone(), extra: std::sync::Arc::new(std::sync::atomic::AtomicU32::new(0)) });
+                    }
+                }
+                self.slots.insert(slot, Slot::Dy(MergedTimeline::of(comps.clone()), comps));
+                "ok".into()
+            }
+            "xextra" => match self.slots.get(&w[1].parse().unwrap()) {
+                Some(Slot::Dy(_, comps)) => {
+                    if let Some(c) = comps.get(w[2].parse::<usize>().unwrap()) { c.extra.store(w[3].parse().unwrap(), std::sync::atomic::Ordering::Relaxed); }
+                    "ok".into()
+                }
+                _ => "bad-slot".into(),
+            },
+            "xmeta" => match self.slots.get(&w[1].parse().unwrap()) {
+                Some(Slot::Dy(m, _)) => meta(m),
+                _ => "bad-slot".into(),
+            },
+            "xmetac" => match self.slots.get(&w[1].parse().unwrap()) {
+                Some(Slot::Dy(_, comps)) => comps.get(w[2].parse::<usize>().unwrap()).map(meta).unwrap_or("bad-slot".into()),
+                _ => "bad-slot".into(),
+            },
+            "xanim" => {
+                // `xanim <slot> <dyn slot> <values…>`: state S0 plays the dyn merge, every other state has no timeline
+                let vs = S::from_vals(&parse_vals::<S>(&w[3..]));
+                let m = match self.slots.get(&w[2].parse().unwrap()) { Some(Slot::Dy(m, _)) => m.clone(), _ => return "bad-slot".into() };
+                let a = StateAnimatorBuilder::<St, DynTl<S::Tl>>::new().from_state(st_of(0)).from_values(vs).on(st_of(0), m).build();
+                let out = show_anim_dyn::<S>(&a);
+                self.slots.insert(w[1].parse().unwrap(), Slot::AnD(a));
+                out
+            }
+            "xadv" => match self.slots.get_mut(&w[1].parse().unwrap()) {
+                Some(Slot::AnD(a)) => { a.advance(fb(w[2])); show_anim_dyn::<S>(a) }
+                _ => "bad-slot".into(),
+            },
             "merge2" => {
                 // `merge2 <slot> <n> <slot of a merge or of a timeline>… <shape>`: MergedTimeline::of over merged timelines
                 let slot: usize = w[1].parse().unwrap();
@@ -509,6 +575,11 @@ impl Runner {
         // stateful ops: the slot's shape is fixed by the op that created it
         let shape = match w[0] {
             "tl" | "anim" => { self.slot_shape.insert(w[1].to_string(), w[2].to_string()); w[2].to_string() }
+            "xdyn" => {
+                let n: usize = w[2].parse().unwrap();
+                match self.slot_shape.get(w[3]).cloned() { Some(sh) if n > 0 => { self.slot_shape.insert(w[1].to_string(), sh.clone()); sh } _ => return "bad-slot".into() }
+            }
+            "xanim" => match self.slot_shape.get(w[2]).cloned() { Some(sh) => { self.slot_shape.insert(w[1].to_string(), sh.clone()); sh } None => return "bad-slot".into() },
             "merge" | "merge2" => {
                 let n: usize = w[2].parse().unwrap();
                 let sh = w[3 + n].to_string();
